@@ -620,29 +620,73 @@ func c20T9(c *Ctx) {
 	if u == nil {
 		return
 	}
+	// the extension: a store `B = append(B, 0)` where B holds the upper bound (a local, or the field of the options
+	// handed to pebble: either arrangement)
 	n := 0
-	want := c.W.Parse("!(p1.Type&common.RangeROpen > 0) && upperBound != nil")
-	for _, s := range u.Match(an.LocalStore("upperBound")) {
-		if s.RHS == nil || !strings.HasPrefix(u.C.Term(s.RHS), "append(upperBound") {
+	for _, s := range u.Sites {
+		if s.Kind != flow.SStore || s.RHS == nil {
+			continue
+		}
+		lhs := u.C.Term(s.LHS)
+		if !strings.Contains(strings.ToLower(lhs), "upperbound") || !strings.HasPrefix(u.C.Term(s.RHS), "append("+lhs) {
 			continue
 		}
 		n++
+		r.Check("C20-T9", u.Name+": extended by exactly one zero byte", u.Pos(s.Pos), u.C.Term(s.RHS) == "append("+lhs+", 0)", u.C.Term(s.RHS))
+		// the condition, as far as it speaks about the range options and the bound: equivalent to "right end not open and a
+		// Max is given" (what else holds there — the engine is open — is the function's precondition)
 		pc := u.SitePC(s)
-		// (relative to what already holds where the bound is first taken from the options)
+		want := c.W.Parse("!(p1.Type&common.RangeROpen > 0) && " + lhs + " != nil")
+		atoms := map[string]*flow.F{}
+		pc.Atoms(atoms)
 		pre := flow.True()
-		for _, d := range u.Match(an.LocalStore("upperBound")) {
-			if d.RHS != nil && u.C.Term(d.RHS) == "p1.Max" {
-				pre = u.SitePC(d)
+		for k, a := range atoms {
+			if strings.Contains(k, "p1.") || strings.Contains(k, lhs) {
+				continue
+			}
+			if flow.Implies(pc, a).Holds {
+				pre = flow.And(pre, a)
+			} else if flow.Implies(pc, flow.Not(a)).Holds {
+				pre = flow.And(pre, flow.Not(a))
 			}
 		}
 		fw, bw := flow.Implies(pc, want), flow.Implies(flow.And(want, pre), pc)
 		ok := fw.Holds && bw.Holds && fw.Undecided == "" && bw.Undecided == ""
 		r.Check("C20-T9", u.Name+": the upper bound is extended iff the right end is closed and a Max is given", u.Pos(s.Pos), ok, "pc = "+pc.String())
-		r.Check("C20-T9", u.Name+": extended by exactly one zero byte", u.Pos(s.Pos), u.C.Term(s.RHS) == "append(upperBound, 0)", u.C.Term(s.RHS))
 	}
 	r.Min("C20-T9", n, 1, "extension of pebble's upper bound")
-	r.StoreValues("C20-T9", u, an.LocalStore("upperBound"), []string{"p1.Max", "append(upperBound, 0)"}, 2)
-	r.StoreValues("C20-T9", u, an.LocalStore("lowerBound"), []string{"p1.Min"}, 1)
+	// the bounds handed to pebble come from the options' Min and Max and from nothing else
+	for _, f := range []string{"LowerBound", "UpperBound"} {
+		src := map[string]string{"LowerBound": "p1.Min", "UpperBound": "p1.Max"}[f]
+		vals := map[string]bool{}
+		for _, s := range u.Sites {
+			if s.Kind == flow.SStore && s.RHS != nil && strings.HasSuffix(u.C.Term(s.LHS), "."+f) {
+				v := u.C.Term(s.RHS)
+				if ds := u.Match(an.LocalStore(v)); len(ds) > 0 {
+					for _, d := range ds {
+						if d.RHS != nil {
+							vals[u.C.Term(d.RHS)] = true
+						}
+					}
+				} else {
+					vals[v] = true
+				}
+			}
+		}
+		lits, _ := c.W.PkgLits("engine", "github.com/cockroachdb/pebble.IterOptions")
+		for _, l := range lits {
+			if l.Func == u.Name && l.Fields[f] != "" {
+				vals[l.Fields[f]] = true
+			}
+		}
+		ok := len(vals) > 0
+		for v := range vals {
+			if v != src && !strings.HasPrefix(v, "append(") {
+				ok = false
+			}
+		}
+		r.Check("C20-T9", u.Name+": pebble's "+f+" is the range's "+src, "", ok, fmt.Sprint(vals))
+	}
 }
 
 func init() {
